@@ -291,7 +291,8 @@ def undecodable_sentence(rng, kind=None, **kw):
 def valid_sentence(rng, t=None, decode_ok=True):
     t = t or rng.choice(SUPPORTED)
     payload, fill = armor(message_bits(rng, t))
-    return sentence(payload, fill, chan=rng.choice([b'A', b'B', b'', b'1', b'AB']),
+    # an unfragmented sentence may carry a sequence id (unusual, legal): the ids that the generated groups use
+    return sentence(payload, fill, sid=rng.choice([None] * 8 + [0, 1, 2, 3, 5, 9]), chan=rng.choice([b'A', b'B', b'', b'1', b'AB']),
                     addr=rng.choice([b'AIVDM', b'AIVDO', b'ABVDM', b'BSVDM', b'SAVDO', b'XXVDM', b'AIXXX']),
                     start=rng.choice([b'!', b'!', b'$']),
                     tag=rng.choice([None, None, None, None, None, None, b's:2573345,c:1696241893*00', b'', tag_block(rng), tag_block(rng), hostile_tag_block(rng), hostile_tag_block(rng, rng.random() < 0.8)]))
